@@ -563,6 +563,31 @@ func rulesC03(c *Ctx) {
 						}
 						return false
 					})
+					if !joined {
+						// the semaphore join: every goroutine holds a slot of a buffered channel until it is done (deferred
+						// receive), and before returning the function takes all cap(ch) slots itself
+						joined, _ = hg.MustPass(hg.VertexOf(gs), hg.Exits, func(v int) bool {
+							rs, isR := hg.Node(v).(ast.Expr)
+							_ = rs
+							found := false
+							inspectNoLit(holder.Body, func(x ast.Node) {
+								loop, isLoop := x.(*ast.RangeStmt)
+								if !isLoop || hg.VertexOf(loop.X) != v {
+									return
+								}
+								ce, isC := ast.Unparen(loop.X).(*ast.CallExpr)
+								if !isC || holder.BuiltinName(ce) != "cap" || len(ce.Args) != 1 || !isLocalSemaphore(holder, ce.Args[0]) {
+									return
+								}
+								for _, st := range loop.Body.List {
+									if snd, isS := st.(*ast.SendStmt); isS && holder.ObjOf(snd.Chan) == holder.ObjOf(ce.Args[0]) {
+										found = true
+									}
+								}
+							})
+							return found || isR && false
+						})
+					}
 					c.Check(joined, "notify-on-the-callers-goroutine:"+holder.Name(), holder, gs, "a goroutine that sends a notification is joined (WaitGroup/errgroup Wait) on every path before the notifying function returns")
 				}
 			}
